@@ -30,7 +30,11 @@ RULE = ("family dk: 11 crystals × 5 PM types × crystal θ ∈ [0,π/2] (plus {
         "wavelength/angles/azimuth incl. negative θs, signed poling, crystal orientation, crystal+wavelengths) each followed by a route "
         "that derives the idler (assign_optimum_idler ×2, with_optimum_idler, optimum_idler, try_as_optimum, as_config→idler:\"auto\"→"
         "try_as_spdc) and by ALL clauses on the resulting object (signatures route/<route>/<clause>), plus the λs ≤ λp error clause "
-        "through the object's methods")
+        "through the object's methods; n/40 one-parameter scan sessions (8-24 steps, exactly one of temperature / crystal θ / φ / length / pm "
+        "type / pump λ / signal λ, θ, φ / poling period, sign, on-off / counter-propagation / crystal kind changes per step, all clauses "
+        "after every step, centre and detuned frequency pair); n/60 JSON configs with idler auto + (crystal angle auto | poling auto) and "
+        "a non-collinear signal through SPDC::from_json; finally up to 1500 recorded calls are re-evaluated in reverse and shuffled order "
+        "and must reproduce Δk and the idler bit-for-bit")
 RESIDUAL = "none beyond floating-point rounding (the index values are C01/C02's)"
 ASSUMPTIONS = ["refractive indices are inputs of the model (layer C02)", "UCUM base values: M = RAD = 1.0, so x*M/RAD is the identity"]
 CHECKER_MODULES = ["Spdc.Real.DeltaK"]
